@@ -54,7 +54,9 @@ def subsets(xs):
         yield from itertools.combinations(xs, r)
 
 
-def run_real(retrying, attempts, rf, dnr, spelling, seq, delay, method="op", inner_cls=Inner):
+def run_real(retrying, attempts, rf, dnr, spelling, seq, delay, method="op", inner_cls=Inner, empty="omit", more=()):
+    """one RetryingClient, one call (and then the calls `more` on the same object: list of outcome sequences) -> the first call's
+    (outcome, result, log, script); the later calls' tuples are appended to `run_real.later`"""
     log = []
     script = []
     for n, o in enumerate(seq):
@@ -64,19 +66,31 @@ def run_real(retrying, attempts, rf, dnr, spelling, seq, delay, method="op", inn
     retrying.sleep = lambda d: log.append(("sleep", d))
     conv = {"tuple": tuple, "list": list, "set": set}[spelling]
     kw = {}
-    if rf is not None:
-        kw["retry_for"] = conv(CLS[c] for c in rf)
-    if dnr is not None:
-        kw["do_not_retry_for"] = conv(CLS[c] for c in dnr)
+    if rf is not None or empty == "empty":
+        kw["retry_for"] = conv(CLS[c] for c in (rf or ()))          # an empty collection is a way of saying "no filter", like None
+    if dnr is not None or empty == "empty":
+        kw["do_not_retry_for"] = conv(CLS[c] for c in (dnr or ()))
+    run_real.later = []
     try:
         rc = retrying.RetryingClient(inner, attempts=attempts, retry_delay=delay, **kw)
     except ValueError:
         return ("ctor-ValueError", None, log, script)
     try:
         r = getattr(rc, method)("k", x=1)
-        return ("value", r, log, script)
+        first = ("value", r, log, script)
     except Exception as e:
-        return ("raised", e, log, script)
+        first = ("raised", e, log, script)
+    for seq2 in more:
+        log2 = []
+        script2 = [("ok", Val(n, FALSY[(n + len(seq2)) % len(FALSY)])) if o == "ok" else ("exc", CLS[o](n)) for n, o in enumerate(seq2)]
+        inner.script, inner.log, inner.i = script2, log2, 0
+        retrying.sleep = lambda d, _l=log2: _l.append(("sleep", d))
+        try:
+            r2 = getattr(rc, method)("k", x=1)
+            run_real.later.append(("value", r2, log2, script2))
+        except Exception as e:
+            run_real.later.append(("raised", e, log2, script2))
+    return first
 
 
 def monitor(ctx, case, attempts, rf, dnr, seq, delay, outcome, res, log, script, in_dir=True):
@@ -163,8 +177,9 @@ def main(argv):
     for n, (attempts, rf, dnr, seq) in enumerate(todo):
         spelling = ("tuple", "list", "set")[n % 3]
         delay = (0, 0.5, 3)[n % 3]
-        outcome, res, log, script = run_real(retrying, attempts, rf, dnr, spelling, seq, delay)
-        case = {"attempts": attempts, "retry_for": rf, "do_not_retry_for": dnr, "outcomes": list(seq), "spelling": spelling}
+        empty = "empty" if (n // 3) % 2 else "omit"
+        outcome, res, log, script = run_real(retrying, attempts, rf, dnr, spelling, seq, delay, empty=empty)
+        case = {"attempts": attempts, "retry_for": rf, "do_not_retry_for": dnr, "outcomes": list(seq), "spelling": spelling, "empty_filter_given_as": "an empty " + spelling if empty == "empty" else "not given"}
         overlap = bool(rf and dnr and set(rf) & set(dnr))
         if outcome == "ctor-ValueError":
             ctx.case(("ctor", attempts, tuple(rf or ()), tuple(dnr or ())), nontrivial=False)
@@ -181,6 +196,25 @@ def main(argv):
         monitor(ctx, case, attempts, rf, dnr, seq, delay, outcome, res, log, script)
         lines.append(model_line(attempts, rf, dnr, seq))
         metas.append((case, canon_real(outcome, res, log)))
+    # several calls on ONE RetryingClient: each call has the whole budget of attempts and sleeps, whatever the calls before it did
+    nh = 0
+    for attempts in (1, 2, 3, 4):
+        firsts = list(itertools.product(["ok", 0, 9], repeat=attempts))
+        for hi in range(len(firsts) * 3 if ctx.thorough else len(firsts)):
+            first = firsts[hi % len(firsts)]
+            rf, dnr = ([None, None], [[0], None], [None, [9]], [[0, 9], [1]])[(hi + attempts) % 4]
+            more = [tuple(rng.choice(["ok", 0, 0, 1, 9]) for _ in range(attempts)) for _ in range(rng.randrange(1, 5))]
+            spelling = ("tuple", "list", "set")[hi % 3]
+            outcome, res, log, script = run_real(retrying, attempts, rf, dnr, spelling, first, 0.25, empty=("empty" if hi % 2 else "omit"), more=more)
+            calls_ = [(first, (outcome, res, log, script))] + list(zip(more, run_real.later))
+            for ci, (seq_, (o_, r_, l_, sc_)) in enumerate(calls_):
+                case = {"attempts": attempts, "retry_for": rf, "do_not_retry_for": dnr, "one_client_history": [list(x) for x in [first] + more][:ci + 1], "call_index": ci, "spelling": spelling}
+                ctx.case(("one-client", attempts, hi, ci, seq_, tuple(map(tuple, more[:ci]))))
+                ctx.count("calls on a reused client")
+                monitor(ctx, case, attempts, rf, dnr, seq_, 0.25, o_, r_, l_, sc_)
+                lines.append(model_line(attempts, rf, dnr, seq_))
+                metas.append((case, canon_real(o_, r_, l_)))
+            nh += 1
     # a method reachable but not listed in dir(): never retried
     for attempts in (1, 2, 3):
         for seq in itertools.product([0, "ok"], repeat=attempts):
